@@ -14,8 +14,8 @@
      include/unifex/sync_wait.hpp                  initial_stack_root (l.122-135)
 
    State: a store of frames (the first [nops] are the operations' own frames, _op_base::frame_ of
-   the wrapper that unifex::connect puts around every operation state; later ones are the
-   temporary copies made by _root_and_frame), a store of roots (ScopedAsyncStackRoot objects on
+   the wrapper that unifex::connect puts around every operation state; frame nops + r is the
+   temporary frame that lives next to root r inside a _root_and_frame object), a store of roots (ScopedAsyncStackRoot objects on
    the threads' stacks), the per-thread current-root pointer, and per thread a continuation: the
    part of its "traced run" not yet executed.  A traced run is a forest of brackets
      AStart n body     op_wrapper::start of operation n around the start of the wrapped operation
@@ -61,7 +61,7 @@ Inductive item :=
 | Closing (k : kind) (r f : nat) (popping : bool).
 
 Record st := {
-  frames : nat -> frame; nframes : nat;
+  frames : nat -> frame;
   roots : nat -> root; nroots : nat;
   cur : nat -> option nat;             (* per thread: currentThreadAsyncStackRoot *)
   begun : nat -> option nat;           (* contract bookkeeping: the root pushed by op n's start bracket *)
@@ -77,7 +77,7 @@ Record st := {
 Inductive ev :=
 | ERootPush (r : nat) (next : option nat)
 | ESetParent (f : nat) (p : option nat)
-| ECopy (c : nat) (p : option nat)
+| ECopy (c n : nat) (p : option nat)
 | EActivate (r f : nat)
 | EDeactivate (r f : nat)
 | EEnsure (r : nat) (old : option nat)
@@ -100,54 +100,49 @@ Definition oeqb (a b : option nat) : bool :=
 
 (* ---- setters ---------------------------------------------------------------------------- *)
 Definition set_conts (s : st) (t : nat) (k : list item) : st :=
-  {| frames := frames s; nframes := nframes s; roots := roots s; nroots := nroots s; cur := cur s;
+  {| frames := frames s; roots := roots s; nroots := nroots s; cur := cur s;
      begun := begun s; started := started s; completed := completed s; waits := waits s; failed := failed s; conts := upd (conts s) t k;
      nthreads := nthreads s; par := par s; nops := nops s |}.
 Definition set_frame (s : st) (f : nat) (v : frame) : st :=
-  {| frames := upd (frames s) f v; nframes := nframes s; roots := roots s; nroots := nroots s; cur := cur s;
+  {| frames := upd (frames s) f v; roots := roots s; nroots := nroots s; cur := cur s;
      begun := begun s; started := started s; completed := completed s; waits := waits s; failed := failed s; conts := conts s;
      nthreads := nthreads s; par := par s; nops := nops s |}.
 Definition set_root (s : st) (r : nat) (v : root) : st :=
-  {| frames := frames s; nframes := nframes s; roots := upd (roots s) r v; nroots := nroots s; cur := cur s;
+  {| frames := frames s; roots := upd (roots s) r v; nroots := nroots s; cur := cur s;
      begun := begun s; started := started s; completed := completed s; waits := waits s; failed := failed s; conts := conts s;
      nthreads := nthreads s; par := par s; nops := nops s |}.
 Definition set_cur (s : st) (t : nat) (c : option nat) : st :=
-  {| frames := frames s; nframes := nframes s; roots := roots s; nroots := nroots s; cur := upd (cur s) t c;
+  {| frames := frames s; roots := roots s; nroots := nroots s; cur := upd (cur s) t c;
      begun := begun s; started := started s; completed := completed s; waits := waits s; failed := failed s; conts := conts s;
      nthreads := nthreads s; par := par s; nops := nops s |}.
 Definition set_begun (s : st) (n : nat) (r : nat) : st :=
-  {| frames := frames s; nframes := nframes s; roots := roots s; nroots := nroots s; cur := cur s;
+  {| frames := frames s; roots := roots s; nroots := nroots s; cur := cur s;
      begun := upd (begun s) n (Some r); started := started s; completed := completed s; waits := waits s; failed := failed s; conts := conts s;
      nthreads := nthreads s; par := par s; nops := nops s |}.
 Definition set_started (s : st) (n : nat) : st :=
-  {| frames := frames s; nframes := nframes s; roots := roots s; nroots := nroots s; cur := cur s;
+  {| frames := frames s; roots := roots s; nroots := nroots s; cur := cur s;
      begun := begun s; started := upd (started s) n true; completed := completed s; waits := waits s; failed := failed s; conts := conts s;
      nthreads := nthreads s; par := par s; nops := nops s |}.
 Definition set_completed (s : st) (n : nat) : st :=
-  {| frames := frames s; nframes := nframes s; roots := roots s; nroots := nroots s; cur := cur s;
+  {| frames := frames s; roots := roots s; nroots := nroots s; cur := cur s;
      begun := begun s; started := started s; completed := upd (completed s) n true; waits := waits s;
      failed := failed s; conts := conts s;
      nthreads := nthreads s; par := par s; nops := nops s |}.
 Definition set_waits (s : st) (n m : nat) : st :=
-  {| frames := frames s; nframes := nframes s; roots := roots s; nroots := nroots s; cur := cur s;
+  {| frames := frames s; roots := roots s; nroots := nroots s; cur := cur s;
      begun := begun s; started := started s; completed := completed s; waits := upd (waits s) n m;
      failed := failed s; conts := conts s;
      nthreads := nthreads s; par := par s; nops := nops s |}.
 Definition set_failed (s : st) : st :=
-  {| frames := frames s; nframes := nframes s; roots := roots s; nroots := nroots s; cur := cur s;
+  {| frames := frames s; roots := roots s; nroots := nroots s; cur := cur s;
      begun := begun s; started := started s; completed := completed s; waits := waits s; failed := true; conts := conts s;
      nthreads := nthreads s; par := par s; nops := nops s |}.
-Definition alloc_frame (s : st) : st :=
-  {| frames := upd (frames s) (nframes s) frame0; nframes := S (nframes s); roots := roots s; nroots := nroots s;
-     cur := cur s; begun := begun s; started := started s; completed := completed s; waits := waits s; failed := failed s; conts := conts s;
-     nthreads := nthreads s; par := par s; nops := nops s |}.
-
 (* ---- the primitives --------------------------------------------------------------------- *)
 (* ScopedAsyncStackRoot::ScopedAsyncStackRoot (async_stack.cpp l.206-211):
    root_.nextRoot = current; current = &root_.  The new root gets index nroots. *)
 Definition prim_root_push (t : nat) (s : st) : st :=
   let r := nroots s in
-  let s1 := {| frames := frames s; nframes := nframes s;
+  let s1 := {| frames := frames s;
                roots := upd (roots s) r {| r_top := None; r_next := cur s t; r_thr := t; r_live := true |};
                nroots := S r; cur := upd (cur s) t (Some r);
                begun := begun s; started := started s; completed := completed s; waits := waits s; failed := failed s; conts := conts s;
@@ -244,8 +239,8 @@ Definition step (t : nat) (s : st) : option (st * list ev) :=
       (* rcvr_wrapper::set_xxx: _root_and_frame's members frame_ (fresh) and root_ are constructed first *)
       if Nat.ltb n (nops s) && started s n then
         let r := nroots s in
-        let c := nframes s in
-        let s1 := prim_root_push t (alloc_frame s) in
+        let c := nops s + r in
+        let s1 := prim_root_push t s in
         Some (set_conts s1 t (Opening KC r c n false body :: k), [ERootPush r (cur s t)])
       else None
   | Do (ALoop body) :: k =>
@@ -265,7 +260,7 @@ Definition step (t : nat) (s : st) : option (st * list ev) :=
       let p := match par s n with None => None | Some d => f_parent (frames s d) end in
       let fr := frames s c in
       let s1 := set_frame s c {| f_parent := p; f_root := f_root fr |} in
-      Some (set_conts s1 t (Opening KC r c n true body :: k), [ECopy c p])
+      Some (set_conts s1 t (Opening KC r c n true body :: k), [ECopy c n p])
   | Opening kd r f n false body :: k =>       (* KW / KL have no preparation step *)
       Some (set_conts s t (Opening kd r f n true body :: k), [ESetParent f None])
   | Opening kd r f n true body :: k =>
@@ -304,7 +299,7 @@ Definition step (t : nat) (s : st) : option (st * list ev) :=
 (* ---- initial state ---------------------------------------------------------------------- *)
 (* pars: the op tree (index = op id); progs: one traced run per thread *)
 Definition init (pars : list (option nat)) (progs : list (list act)) : st :=
-  {| frames := fun _ => frame0; nframes := length pars;
+  {| frames := fun _ => frame0;
      roots := fun _ => root0; nroots := 0;
      cur := fun _ => None; begun := fun _ => None; started := fun _ => false; completed := fun _ => false; waits := fun _ => 0; failed := false;
      conts := fun t => map Do (nth t progs []);
